@@ -29,7 +29,7 @@ struct GenKnobs {
     int max_obj_depth = 6;      // object nesting available below the root
     int max_arr_depth = 6;
     int alphabet = 0;           // 0: {00,'a','b',7f,80,ff}; 1: ascii letters; 2: any byte
-    int long_strings = 0;       // 0 none, 1 around 127/128, 2 around 32767/32768
+    int long_strings = 0;       // 0 none, 1 around 127/128, 2 also around 32767/32768, 3 also around 65535/65536
     int p_container = 30;       // percent
     int p_empty = 25;           // percent of containers left empty
     bool names_nul = true;      // allow 0x00 in names
